@@ -1,10 +1,8 @@
 SPECIFICATION Spec
 CONSTANTS
-  Elems <- PoolChain
+  Kinds = {"str", "arr", "bytes", "dict", "gen"}
   MaxLit = 3
   Depth = 3
-  NLits = 2
-  Steps = {"bin", "with", "without", "where", "coll", "reprint"}
 INVARIANTS TypeOK Laws
 PROPERTIES AppendOnly
 CHECK_DEADLOCK FALSE
